@@ -499,7 +499,7 @@ GuardsRetClose(st, e) ==
         sub == IF c.op = "closeprov" THEN ScopeNames(st) \cup {"prov"}
                ELSE IF c.sc \in ScopeNames(st) THEN Subtree(st, c.sc) ELSE {}
     IN
-    {G("close_reports_errors", {"C12"}, ("disposal" \in err) <=> (c.nclerr > 0), NONE),
+    {G("close_reports_errors", {"C12"}, c.op # "cancel" => (("disposal" \in err) <=> (c.nclerr > 0)), NONE),
      G("close_no_other_error", {"C12"}, err \subseteq {"disposal"}, NONE),
      G("second_close_noop", {"C12"}, ~c.wasOpen => (err = {} /\ c.ncl = 0), NONE),
      G("close_closes_all_owned", {"C10"}, AllClosed(st, Disposables(st, sub)), NONE)}
